@@ -244,3 +244,9 @@ def sampling(tier, rng, rep):
             if abs(d0 - d1) > 1e-6 * (1 + d0):
                 rep.fail("preserves_distance", f"{nm}: {d0} vs {d1}", {"n": n, "which": nm, "matrix": M.tolist()})
             rep.case(key=(t, nm), nontrivial=(n >= 3 or nm.startswith("word")), sample={"n": n, "which": nm} if t == 0 else None)
+
+
+from vf.pcontract import lean_lemmas
+lean_lemmas(P, "closure_lemmas", "lean/Glue.lean", ["form_mul", "form_inv", "form_apply"],
+            note="matrices with M J M^T = J are closed under products and inverses and preserve the form of any pair of rows (all sizes, any commutative ring): "
+                 "with the per-constructor contracts this gives form preservation for every word of compositions / inverses, hence distance invariance")
